@@ -1,7 +1,7 @@
 (* Props/C02.v — property C02: theorems only; each closed by [exact] of a lemma proved elsewhere, followed by
    Print Assumptions. The statements are about every trace admitted by the protocol model (Sim/Proto.v,
    rules with constants regenerated from /repo), at every position of the trace. *)
-From LE Require Import Base Ev World Mon Mon2 Proto Consts GenGuards Config ConfigSpec GenConfig SimBasics SimOwn SimCallbacks SimTheorems GuardFacts Timing Witness.
+From LE Require Import Base Ev World Mon Mon2 Proto Consts GenGuards Config ConfigSpec GenConfig SimBasics SimOwn SimCallbacks SimTheorems GuardFacts Timing Witness Env SimRefresh SimLease Witness2.
 Open Scope Z_scope.
 
 Theorem C02_acquisition_only_when_vacant :
@@ -25,3 +25,25 @@ Theorem C02_lease_never_lapses_under_fast_store :
 Proof. exact refresh_gap_lt_ttl. Qed.
 Print Assumptions C02_lease_never_lapses_under_fast_store.
 
+
+(* The claim itself: at every position of every admitted trace in the lease environment (Sim/Env.v: no priority
+   takeover configured, no outside writer, no expiry and no Delete of a key under a holder), at most one instance
+   claims a key and every claim is backed by the live record with the claimant's identity and current token
+   (monitor clauses 201 and 202, evaluated on the state after the observation).
+   PARTIAL with respect to the property text: the property's environment is "every store operation answers within
+   H/2"; that this keeps the record from expiring under its holder is the arithmetic of
+   [C02_lease_never_lapses_under_fast_store] above and is not yet derived for traces; "no Delete under a holder"
+   excludes the recorded residual of D5 (non-atomic check-then-delete in StopWithContext). *)
+Theorem C02_partial_one_claimant_backed_by_its_record :
+  forall tr, admits base0 tr = true -> env_admits base0 tr = true ->
+  forall pre te post, tr = pre ++ te :: post ->
+    ~ In 201 (mon_C02 (bapply (brun pre) te) te) /\ ~ In 202 (mon_C02 (bapply (brun pre) te) te).
+Proof. exact C02_mutual_exclusion. Qed.
+Print Assumptions C02_partial_one_claimant_backed_by_its_record.
+
+(* the hypotheses are satisfiable by a trace of the real library in which two instances claim leadership in turn *)
+Theorem C02_partial_nonvacuous :
+  admits base0 lease_witness = true /\ env_admits base0 lease_witness = true /\
+  List.length (filter (fun te => match snd te with EFlag _ 1 _ _ _ => true | _ => false end) lease_witness) = 2%nat.
+Proof. exact (conj lease_witness_admitted (conj lease_witness_env lease_witness_claims)). Qed.
+Print Assumptions C02_partial_nonvacuous.
